@@ -130,7 +130,9 @@ class ExprMixin:
         a = self.skip(arg) if self.skip(arg).get('valueCategory') in ('lvalue', 'xvalue') else arg
         core = self.skip(arg)
         if self.is_lv(core):
+            mine = self.wb
             lv = self.expr(core)
+            self.wb = mine              # calls nested in the argument expression have their own write-back lists
             if '.data[' in lv and self.wb is not None:
                 # pointer to an element nested in a container: pass a copy, write it back after the call
                 # (CBMC 6.11 pitfall, DESIGN §2 item 8); same semantics unless the callee keeps the pointer
@@ -562,8 +564,14 @@ class ExprMixin:
             self.rules['opaque-construction'] += 1
             suffix = []; atxt = []; ptxt = []
             for i, a in enumerate(args2):
-                at = self.tyq(a['type']); suffix.append(cident(at.c))
                 a0 = self.skip(a)
+                if a0.get('kind') == 'LambdaExpr':
+                    # a closure converted to an opaque callback type (std::function): the callback is opaque to the
+                    # verified text, so its body is not part of it; the stub receives the source line of the lambda
+                    suffix.append('lambda'); atxt.append(str(a0.get('range', {}).get('begin', {}).get('line', 0) or 0)); ptxt.append('int a%d' % i)
+                    self.rules['lambda-to-opaque-callback'] += 1; self.dropped['body of a lambda converted to an opaque callback'] += 1
+                    continue
+                at = self.tyq(a['type']); suffix.append(cident(at.c))
                 if a0.get('kind') == 'StringLiteral':
                     atxt.append(a0['value']); ptxt.append('const char* a%d' % i); suffix[-1] = 'lit'
                 elif self.big(at) or at.kind == 'opaque':
@@ -663,11 +671,13 @@ class ExprMixin:
 
     def call_args(self, d, args, skip_first=0):
         ps = self.params_of(d)
-        self.wb = []
+        mine = []; self.wb = mine
         out = []
         for i, p in enumerate(ps):
             if i < len(args) and args[i].get('kind') != 'CXXDefaultArgExpr':
+                self.wb = mine
                 out.append(self.as_arg(args[i], self.param_storage(p), self.tyq(p['type'])))
+                self.wb = mine
             else:
                 init = [c for c in p.get('inner', []) if c.get('kind') not in ('FullComment',)]
                 if not init: raise Unsupported('missing default argument for %s' % p.get('name'))
@@ -723,6 +733,9 @@ class ExprMixin:
         ot = self.etype(obj)
         if ot.kind == 'ptr' and me.get('isArrow'): otk = ot.elem
         else: otk = ot
+        vs = self.u.get('visit_sequences', {})
+        if me.get('name') in vs and len(args) == 1:
+            return self.visit_sequence(vs[me['name']], obj, me.get('isArrow'), args[0], n)
         if d is not None and d.get('kind') in ('CXXMethodDecl', 'CXXConversionDecl') and otk.kind == 'rec' and not self.is_external(d):
             return self.method_call(d, obj, me.get('isArrow'), args, n)
         if d is not None and d.get('kind') in ('CXXMethodDecl', 'CXXConversionDecl'):
@@ -730,6 +743,46 @@ class ExprMixin:
         h = self.lib_method(otk, me['name'], obj, me.get('isArrow'), args, n, rvalue)
         if h is not None: return h
         raise Unsupported('method %s on %s (%s) at %s' % (me['name'], otk.c, otk.kind, self.where(n)))
+
+    def visit_sequence(self, cname, obj, is_arrow, arg, n):
+        """obj.Visit(visitor) for a member listed in the unit's 'visit_sequences' (a traversal that calls the visitor
+        once per node, in a fixed order): a loop over the abstract node sequence <cname>_count(obj) /
+        <cname>_node(obj, k) with the body of the local lambda inlined.  The traversal itself (a recursive member
+        template of the visited class) is NOT part of the verified text: its contract is the pair of stubs."""
+        import cxx2c_idioms
+        a = self.skip(arg)
+        lam = self.lambda_vars.get(a.get('referencedDecl', {}).get('id')) if a.get('kind') == 'DeclRefExpr' else (a if a.get('kind') == 'LambdaExpr' else None)
+        if lam is None: raise Unsupported('visit sequence with a visitor that is not a local lambda at ' + self.where(n))
+        op = cxx2c_idioms.lambda_call_op(self, lam)
+        params = self.params_of(op)
+        if len(params) != 1: raise Unsupported('visitor lambda with %d parameters' % len(params))
+        body = [c for c in op.get('inner', []) if c.get('kind') == 'CompoundStmt'][0]
+        def has_return(x):
+            if isinstance(x, dict):
+                if x.get('kind') == 'ReturnStmt': return True
+                if x.get('kind') == 'LambdaExpr': return False
+                return any(has_return(c) for c in x.get('inner', []))
+            return False
+        if has_return(body): raise Unsupported('visitor lambda with a return statement at ' + self.where(n))
+        o = self.expr(obj)
+        optr = o if is_arrow else self.addr(o)
+        pt = self.tyq(params[0]['type'])
+        k = self.loopn + 1
+        j = 'j_L%d_' % k; cnt = 'n_L%d_' % k
+        self.autostubs.setdefault(cname + '_count', 'size_t %s_count(const %s* host);' % (cname, pt.c))
+        self.autostubs.setdefault(cname + '_node', 'const %s* %s_node(const %s* host, size_t k);' % (pt.c, cname, pt.c))
+        self.fninfo.setdefault(cname + '_count', {'qname': cname + '::count', 'stub': True}); self.fninfo.setdefault(cname + '_node', {'qname': cname + '::node', 'stub': True})
+        saved = self.pre; self.pre = []
+        out = []
+        out.append('{ size_t %s = %s_count(%s); size_t %s; for (%s = 0; %s < %s; ++%s)' % (cnt, cname, optr, j, j, j, cnt, j))
+        out.append(self.loop_marker())
+        self.vars[params[0]['id']] = ('alias', '(*%s_node(%s, %s))' % (cname, optr, j))
+        self.stmt(body, out, '  ')
+        out.append('}')
+        self.pre = saved + out
+        self.rules['visit-sequence-as-loop(lambda inlined)'] += 1
+        self.dropped['traversal order of %s (contract: one visitor call per node, pre-order)' % cname] += 1
+        return '((void)0)'
 
     def obj_text(self, obj, is_arrow):
         """C lvalue text of the object of a member call"""
